@@ -25,17 +25,29 @@ type Conn interface {
 	Close()
 }
 
+// Closable is implemented by the connection types whose Close keeps buffered data readable and then
+// reports the end of the stream (packetio.Buffer, udp.Conn, the vnet UDP socket): for them the
+// history may contain a Close.
+type Closable interface {
+	CloseKeepsData() bool
+}
+
 type runner struct {
 	c        Conn
 	pending  chan string // result of the read in flight
 	inFlight bool
+	closed   bool
 }
 
 func (r *runner) reader() {
 	buf := make([]byte, 64)
 	n, err := r.c.Read(buf)
 	if err != nil {
-		r.pending <- r.c.Classify(err)
+		k := r.c.Classify(err)
+		if k == "closed" {
+			k = "eof"
+		}
+		r.pending <- k
 		return
 	}
 	r.pending <- fmt.Sprintf("data%d", n)
@@ -63,7 +75,7 @@ func (r *runner) collect() string {
 	}
 }
 
-// Op executes one operation: dl <T|zero> | arr | read | adv <dt ns>
+// Op executes one operation: dl <T|zero> | dlb <T|zero> | arr | read | adv <dt ns> | close
 func (r *runner) Op(f []string) string {
 	switch f[0] {
 	case "dl":
@@ -83,6 +95,11 @@ func (r *runner) Op(f []string) string {
 		} else {
 			_ = r.c.SetReadDeadline(t)
 		}
+	case "close":
+		if cl, ok := r.c.(Closable); ok && cl.CloseKeepsData() && !r.closed {
+			r.closed = true
+			r.c.Close()
+		}
 	case "arr":
 		r.c.Deliver([]byte{1, 2, 3})
 	case "read":
@@ -98,12 +115,14 @@ func (r *runner) Op(f []string) string {
 }
 
 // Gen produces a random history; times are virtual nanoseconds since the epoch.
-func Gen(rg *vh.Rng) []string {
+func Gen(rg *vh.Rng, closable bool) []string {
 	var ops []string
 	now := 0
 	n := 8 + rg.Intn(30)
 	for i := 0; i < n; i++ {
 		switch c := rg.Intn(100); {
+		case c < 4 && closable:
+			ops = append(ops, "close")
 		case c < 25:
 			kind := "dl"
 			if rg.Chance(40) {
@@ -142,7 +161,9 @@ func RunCase(o *vh.Out, id, kind string, mk func() Conn, ops []string) {
 	// release a read that is still blocked
 	_ = c.SetReadDeadline(vtime.Now().Add(-time.Second))
 	r.settle()
-	c.Close()
+	if !r.closed {
+		c.Close()
+	}
 	if r.inFlight {
 		select {
 		case <-r.pending:
@@ -154,8 +175,9 @@ func RunCase(o *vh.Out, id, kind string, mk func() Conn, ops []string) {
 // Main is the body of every package's TestVerifRDL.
 func Main(kind string, mk func() Conn) {
 	vh.RunShardsSerial(func(shard int, rg *vh.Rng, o *vh.Out, n int) {
+		closable := kind == "buffer" || kind == "udpconn" || kind == "vnetudp"
 		for i := 0; i < n; i++ {
-			RunCase(o, fmt.Sprintf("%d.%d", shard, i), kind, mk, Gen(rg))
+			RunCase(o, fmt.Sprintf("%d.%d", shard, i), kind, mk, Gen(rg, closable))
 		}
 	}, func(cs []vh.Case, o *vh.Out) {
 		for _, c := range cs {
